@@ -15,6 +15,7 @@ ClassesAll == {
   C("float32", 32, FALSE, "NAN", FALSE, TRUE, TRUE), C("float64", 64, FALSE, "NAN", FALSE, TRUE, TRUE),
   C("obj_str", 64, TRUE, "OBJ", FALSE, TRUE, FALSE), \* object dtype holding 4-character text: mean length + 4 bytes
   C("str", 64, FALSE, "OBJ", FALSE, TRUE, FALSE),     \* pandas string dtype
+  C("obj_str_e", 64, TRUE, "OBJ", FALSE, TRUE, FALSE), \* text whose smallest value is the EMPTY string (falsy statistic)
   C("obj_bytes", 64, TRUE, "OBJ", FALSE, TRUE, FALSE),
   C("dt_ns", 64, FALSE, "NAT", FALSE, TRUE, TRUE),   C("dt_us", 64, FALSE, "NAT", FALSE, TRUE, TRUE),
   C("dt_ms", 64, FALSE, "NAT", FALSE, TRUE, TRUE),   C("dt_s", 64, FALSE, "NAT", FALSE, TRUE, TRUE),
@@ -25,8 +26,19 @@ ClassesAll == {
   C("Int64", 64, FALSE, "MASK", FALSE, TRUE, TRUE),  C("UInt16", 32, FALSE, "MASK", FALSE, TRUE, TRUE),
   C("UInt64", 64, FALSE, "MASK", FALSE, TRUE, TRUE), C("boolean", 1, FALSE, "MASK", FALSE, TRUE, FALSE) }
 
-ClassesCore == {c \in ClassesAll : c.name \in {"bool", "int8", "int64", "uint64", "float64", "obj_str", "dt_ns", "dt_tz",
-                                                 "cat_str", "Int64", "boolean"}}
+ClassesCore == {c \in ClassesAll : c.name \in {"bool", "int8", "int64", "uint64", "float64", "obj_str", "obj_str_e", "dt_ns",
+                                                 "dt_tz", "cat_str", "Int64", "boolean"}}
+(* row counts around 64 and 8192, where the framing of the level block changes, on a reduced option product *)
+ClassesBig == {c \in ClassesAll : c.name \in {"int64", "float64", "obj_str", "cat_str", "Int64"}}
+RowsBig == {63, 64, 65, 100}
+RowsHuge == {8191, 8192, 8193}
+PatsBig == {"none", "last"}
+ValsBig == {"perm"}
+ModesBig == {"true", "false"}
+RppBig == {3, 8, 100}
+RppHuge == {100, 5000}
+Rgo0 == {0}
+StatsTrue == {"true"}
 
 RowsQuick == {0, 1, 2, 3, 8, 9}
 RowsThorough == {0, 1, 2, 3, 8, 9, 17}
